@@ -209,15 +209,17 @@ HYGIENE = re.compile(r"\b(Admitted|admit|Axiom|Axioms|Parameter|Parameters|Conje
                      r"Unset\s+Universe|type-in-type|impredicative-set")
 
 
-def hygiene():
-    """Scan every .v file of the development. `Variable`/`Hypothesis` are
-    allowed only inside a Section (checked by tracking Section/End nesting)."""
+def hygiene(only=None):
+    """Scan .v files of the development (all of them, or the list `only` of paths relative to coq/).
+    `Variable`/`Hypothesis` are allowed only inside a Section (checked by tracking Section/End nesting)."""
     bad = []
     for root, _, files in os.walk(COQ):
         for fn in files:
             if not fn.endswith(".v"):
                 continue
             path = os.path.join(root, fn)
+            if only is not None and os.path.relpath(path, COQ) not in only:
+                continue
             depth = 0
             incomment = 0
             for ln, line in enumerate(open(path), 1):
